@@ -6,7 +6,8 @@ EXPLANATION = ("L1 reply senders are owned only by the driver's two routing maps
                "driver loop takes the driver by value, so every exit drops them; no mem::forget / ManuallyDrop / Box::leak / into_raw in "
                "the workspace; L2 in the driver loop the closed-channel / end-of-stream alternative of the request, misc and response "
                "arms leaves the loop, a stream error and a failed socket write return Err, and an arm awaits nothing but the driver's own transport (never a channel send, lock or timer whose completion is up to a consumer); L3 on the caller side every send / recv / await "
-               "on a channel is propagated with `?`, matched into an Err return or (finish only) logged - never unwrapped, never retried; "
+               "on a channel is propagated with `?`, matched into an Err return or (finish only) logged - never unwrapped, never retried (the stream's stepping functions are evaluated from the values of the stream state "
+               "in which their one referencing shim reaches the call, so a branch on an excluded state is not an answer to a closed channel); "
                "L4 the request send (with `?`) precedes every await in the operation issue point; L5 the Unbind arm shuts the socket down "
                "and closes the sink before acknowledging, and the acknowledgement is sent for every non-Single operation; L6 the one-operation driver (StartTLS set-up) hands the connection back only on paths that have established that no reply is owed; L7 the transport wrapper's AsyncRead / AsyncWrite methods each delegate, per variant, to the same method of the wrapped stream (shutdown reaches the socket of every transport kind); L9 on every path of the request arm on which the operation is Unbind the driver loop is left, so the reply senders of operations still waiting are dropped. Not decided: "
                "liveness itself (tokio wakes waiters; a stalled write eventually fails; select! fairness).")
@@ -23,6 +24,45 @@ SHARED = [('C16', ('A2.follow-up-error-returned',), 'L8.paged-follow-up-failure-
 LEAKERS = ('core::mem::forget', 'core::mem::manually_drop::ManuallyDrop::<T>::new', 'alloc::boxed::Box::<T, A>::leak', 'alloc::boxed::Box::<T>::leak',
            'alloc::sync::Arc::<T, A>::into_raw', 'alloc::sync::Arc::<T>::into_raw', 'alloc::boxed::Box::<T, A>::into_raw', 'alloc::boxed::Box::<T>::into_raw',
            'alloc::rc::Rc::<T>::into_raw')
+
+def paths_from_entry_states(ctx, f, B):
+    """The paths of a caller-side body, evaluated in the states it can be entered in.  A private stepping function of the search
+    stream (next_inner, finish_inner) is entered through one shim only (next(), finish()), and the shim tests the stream's state
+    before it calls: a branch of the stepping function on a state the shim never lets through is dead code, not a way a closed
+    channel is answered.  Decided, not assumed, on every run: (1) every reference to the function in the workspace (call or function
+    value) lies in one body of the stream type; (2) that body is evaluated from each value of the stream's state field - the field
+    whose type is a fieldless enum of the crate, a finite domain - and the states in which some path of it reaches the call are
+    collected; the function is then evaluated once from each of those states.  If (1) does not hold, or the state field cannot be
+    identified, the function is evaluated without any knowledge of the state (every branch counts), as before."""
+    plain = lambda: sem.paths(f, B, result_combinators=True)[0]
+    it = f.items.get(B.path) or {}
+    dom = sem.finite_state_field(f, B.path)
+    if dom is None:
+        return plain()
+    fname, values = dom
+    refs = set()
+    for path, h in f.hir.items():
+        if path == B.path:
+            continue
+        for n, c in walk(h['body']):
+            if (n['k'] in ('Call', 'MethodCall') and callee_of(n) == B.path) or (n['k'] == 'Path' and n.get('defkind') in ('Fn', 'AssocFn') and (n.get('inst') or n.get('def')) == B.path):
+                refs.add(path)
+    if len(refs) != 1 or (f.items.get(next(iter(refs))) or {}).get('impl_self') != it.get('impl_self'):
+        return plain()
+    shim = hirq.Body(f, f.hir[next(iter(refs))])
+    ctx.analysed['bodies'].add(shim.path)
+    place = ('field', ('param', 'self'), fname)
+    entered = []
+    for val in values:
+        outs = absx.Interp(f, shim, result_combinators=True).run(root=sem.entry(shim), heap={place: val})
+        if any(e[0] == 'call' and e[1] == B.path for o in outs for e in o.st.ev):
+            entered.append(val)
+    ctx.add('L3.stepping-function-entry-states', B.path, loc(B.root), bool(entered),
+            '%s is referenced only from %s, which reaches it from no value of the stream\'s state' % (B.path, shim.path))
+    out = []
+    for val in entered:
+        out += [o for o in absx.Interp(f, B, result_combinators=True).run(root=sem.entry(B), heap={place: val}) if o.kind in ('val', 'ret', 'div', 'loop')]
+    return out
 
 def run(ctx):
     f = ctx.facts
@@ -181,7 +221,7 @@ def run(ctx):
     for p in caller_bodies:
         B = hirq.Body(f, f.hir[p])
         ctx.analysed['bodies'].add(p)
-        outs, _I = sem.paths(f, B, result_combinators=True)
+        outs = paths_from_entry_states(ctx, f, B)
         sites = {}      # node id -> (kind, node, result-term predicate)
         for o in outs:
             for i, cal, args, node in sem.calls(o, lambda c: c.rsplit('::', 1)[-1] in ('send', 'recv')):
@@ -221,7 +261,7 @@ def run(ctx):
     # what was delivered is returned: the stream reports its end only when the item channel itself yielded None (closed and drained)
     for p in [q for q in caller_bodies if q.endswith('::next_inner')]:
         B = hirq.Body(f, f.hir[p])
-        outs, _I = sem.paths(f, B, result_combinators=True)
+        outs = paths_from_entry_states(ctx, f, B)
         is_recv = lambda t: t[0] == 'call' and t[1].startswith('tokio::sync::mpsc::') and t[1].endswith('Receiver::<T>::recv')     # bounded or unbounded: recv() is None exactly when the channel is closed and drained
         def recv_result(v):
             if v[0] == 'await' and is_recv(v[1]):
